@@ -519,6 +519,19 @@ fn process_tags(
                 None
             };
             let gen_result = t.generate_events(context);
+            if let Err(
+                SvgdxError::LoopLimitError(..)
+                | SvgdxError::VarLimitError(..)
+                | SvgdxError::DepthLimitExceeded(..),
+            ) = gen_result
+            {
+                // Exceeding a limit can't be fixed by retrying later, and a
+                // retry would start from whatever state the failed attempt
+                // left behind (e.g. loop variables), so give up immediately.
+                // This includes content of a specs block, where other errors
+                // are ignored.
+                return gen_result.map(|_| None);
+            }
             if !context.in_specs {
                 // if we *are* in a specs block, we don't care if there were errors;
                 // a specs entry may have insufficient context until reuse time.
@@ -532,17 +545,6 @@ fn process_tags(
                         idx_output.insert(idx, events);
                     }
                 } else {
-                    if let Err(
-                        SvgdxError::LoopLimitError(..)
-                        | SvgdxError::VarLimitError(..)
-                        | SvgdxError::DepthLimitExceeded(..),
-                    ) = gen_result
-                    {
-                        // Exceeding a limit can't be fixed by retrying later, and a
-                        // retry would start from whatever state the failed attempt
-                        // left behind (e.g. loop variables), so give up immediately.
-                        return gen_result.map(|_| None);
-                    }
                     if let (Some(el), Err(err)) = (el, gen_result) {
                         if let SvgdxError::MultiError(err_list) = err {
                             for (idx, (el, err)) in err_list {
